@@ -915,13 +915,11 @@ def run_history_op(case, world, idx, op, results, rep, cpus):
             # the fault fired and the call still returned: C10 (e): it must
             # then be the complete, correct answer -- judged below as usual,
             # and recorded
+            # (a call that absorbs the failure, e.g. by retrying, and returns
+            # the complete answer violates nothing; what it must never do is
+            # return a partial or different answer: compared below with the
+            # fault-free execution of the same call)
             rep['stats']['calls_returned_despite_fault'] += 1
-            if out.fault_fired['kind'] in ('tok_raise', 'sim_raise',
-                                           'worker_crash'):
-                vs.append(V('fault_swallowed', ['C10'],
-                            'C10 %s worker-failure-swallowed' % comp,
-                            'a %s inside the call did not make the call raise'
-                            % out.fault_fired['kind']))
     # ---- state invariants --------------------------------------------------
     svs, flipped = check_state(world, out.ok, op, excused_flag=(not out.ok))
     vs.extend(svs)
@@ -990,6 +988,9 @@ def run_history_op(case, world, idx, op, results, rep, cpus):
                              tuple(fo['dispatch']), tuple(fo['complete'])))
         if ej >= 2:
             rep['stats']['calls_with_fanout'] += 1
+    if out.ok and faulted and (out.res is not None or kind == 'filter_pair'):
+        vs.extend(run_twin(case, world, idx, op, out, results, rep, cpus,
+                           prop='C10', what='fault_changes_result'))
     # ---- twin and variants ------------------------------------------------
     if out.ok and out.res is not None and not faulted:
         if op.get('twin'):
@@ -1150,8 +1151,10 @@ def _compare(world, op, base_res, other_res, exact, po, what, prop, comp):
     return vs
 
 
-def run_twin(case, world, idx, op, out, results, rep, cpus):
-    """The same call in isolation: fresh objects, n_jobs=1, no plan."""
+def run_twin(case, world, idx, op, out, results, rep, cpus, prop='C12',
+             what='isolation_twin'):
+    """The same call in isolation: fresh objects, n_jobs=1, no plan, no
+    fault."""
     w2 = fresh_world(case, idx)
     op2 = dict(op)
     op2['n_jobs'] = 1
@@ -1162,12 +1165,12 @@ def run_twin(case, world, idx, op, out, results, rep, cpus):
     rep['stats']['twins'] += 1
     comp = op_component(world, op)
     if not o2.ok:
-        return [V('isolation_twin', ['C12'], 'C12 %s twin-raises' % comp,
+        return [V(what, [prop], '%s %s twin-raises' % (prop, comp),
                   'call succeeded in the history but raises in isolation: %s'
                   % o2.brief())]
     if o2.res is None:
         if op['op'] == 'filter_pair' and o2.value != out.value:
-            return [V('isolation_twin', ['C12'], 'C12 %s twin:value' % comp,
+            return [V(what, [prop], '%s %s %s:value' % (prop, comp, what),
                       'filter_pair gives %r in the history, %r in isolation'
                       % (out.value, o2.value))]
         return []
@@ -1175,8 +1178,7 @@ def run_twin(case, world, idx, op, out, results, rep, cpus):
     po = None
     if not exact:
         po = oracle_for(world, op)
-    return _compare(world, op, out.res, o2.res, exact, po, 'isolation_twin',
-                    'C12', comp)
+    return _compare(world, op, out.res, o2.res, exact, po, what, prop, comp)
 
 
 def _fit_perm(perm, n):
